@@ -16,6 +16,7 @@
 -/
 import TarsModel.Driver.Common
 import TarsModel.Model.Logger
+import TarsModel.Model.PanicExit
 
 namespace Tars.Driver.Logger
 open Tars Tars.Driver Tars.Logger
@@ -155,6 +156,10 @@ def doRun (v : Variant) (cap : Nat) (toks : List String) : String :=
 def handle (ws : List String) : String :=
   match ws with
   | ["variant"] => variantName treeVariant
+  | ["paniceffects"] =>
+    -- what the recover branch of CheckPanic of this tree does, in order (Model/PanicExit.lean)
+    String.intercalate "," ((Tars.PanicExit.effects Tars.PanicExit.treeBody).map fun
+      | .dump => "dump" | .flush => "flush" | .exit => "exit")
   | "admits" :: v :: cap :: toks =>
     match parseVariant v, parseNat? cap with
     | some v, some cap => doAdmits v cap toks
